@@ -99,4 +99,18 @@ def Sat_RE (b : Buf) (d : Nat) (dest : List Byte) (out : Out) (post : Obs) : Boo
       dest.take (b.len - post.rd.length) == b.readable.take (b.len - post.rd.length)
   | _ => false
 
+/-- `Read::read_to_end`, default implementation over `FixedBuf`'s `read`: every unread byte is handed out (appended to the
+    caller's vector), the buffer is drained -/
+def stepRTE (oc : Bool) (b : Buf) : Buf × Out :=
+  match step oc b .readAll with
+  | (b', o) => (b', { o with nums := [b.len] })
+
+/-- C01 / C03 / C04 for `read_to_end`: all unread bytes in order, and — the buffer being drained — every byte of
+    capacity is writable again -/
+def Sat_RTE (b : Buf) (got : List Byte) (out : Out) (post : Obs) : Bool :=
+  validObs b post &&
+  match out.cls, out.nums with
+  | .ok, [n] => n == b.len && got == b.readable && post.rd.isEmpty && post.free == b.mem.length
+  | _, _ => false
+
 end FBV
